@@ -12,6 +12,9 @@ import (
 
 type zzProbe struct{}
 
+// zzRespawn asks a parent to spawn a replacement for the child with index K under the same name and id.
+type zzRespawn struct{ K int }
+
 type zzTree struct {
 	e        *Engine
 	D, F     int
@@ -21,6 +24,14 @@ type zzTree struct {
 	early    bool // a node handled Stopped before one of its descendants had
 	wrongPar bool
 	listed   map[string][]string // Children() as seen by the last probe, by node id
+
+	crashStop string // id of the node whose Stopped handler panics once ("" = none)
+	crashed   bool
+	rechild   string // id of the child that asks its parent for a replacement from inside its Stopped handler
+	asked     bool
+	replaced  map[string]*PID // replacement children by id
+	gen       map[string]int  // incarnations started per id
+	stoppedN  map[string]int  // Stopped deliveries per id
 }
 
 type zzNode struct {
@@ -33,6 +44,7 @@ func (n *zzNode) Receive(c *Context) {
 	id := c.PID().ID
 	switch c.Message().(type) {
 	case Started:
+		t.gen[id]++
 		if par := c.Parent(); par != nil {
 			if t.parentOf[id] != par.ID {
 				t.wrongPar = true
@@ -49,7 +61,27 @@ func (n *zzNode) Receive(c *Context) {
 				t.kids[id] = append(t.kids[id], pid)
 			}
 		}
+	case zzRespawn:
+		m := c.Message().(zzRespawn)
+		if n.depth < t.D {
+			d := n.depth + 1
+			pid := c.SpawnChild(func() Receiver { return &zzNode{t: t, depth: d} }, "c", WithID(string(rune('0'+m.K))))
+			t.replaced[pid.ID] = pid
+		}
 	case Stopped:
+		t.stoppedN[id]++
+		if t.rechild == id && !t.asked {
+			// the stopping child asks for its own replacement and takes its time finishing: the parent may
+			// handle the request while this incarnation is still inside its Stopped handler
+			t.asked = true
+			c.engine.Send(c.Parent(), zzRespawn{K: int(id[len(id)-1] - '0')})
+			zzrt.Yield()
+		}
+		if t.crashStop == id && !t.crashed {
+			t.crashed = true
+			t.stopped[id] = true
+			panic("zz-crash-in-Stopped")
+		}
 		var chk func(string)
 		chk = func(p string) {
 			for _, k := range t.kids[p] {
@@ -74,11 +106,18 @@ func ZZ_C08() {
 	D := zzrt.Param("D")
 	F := zzrt.Param("F")
 	e, _ := zzBareEngine()
-	t := &zzTree{e: e, D: D, F: F, stopped: map[string]bool{}, kids: map[string][]*PID{}, parentOf: map[string]string{}, listed: map[string][]string{}}
+	t := &zzTree{e: e, D: D, F: F, stopped: map[string]bool{}, kids: map[string][]*PID{}, parentOf: map[string]string{}, listed: map[string][]string{},
+		replaced: map[string]*PID{}, gen: map[string]int{}, stoppedN: map[string]int{}}
+	mode := zzrt.Param("mode") // 0 shutdown interleavings, 1 respawn of the root id during shutdown (C10), 2 a stopping child is replaced (Children bookkeeping)
 	root := e.Spawn(func() Receiver { return &zzNode{t: t, depth: 0} }, "root", WithID("r"))
 	zzrt.Quiesce()
 	zzrt.Assert(len(t.kids[root.ID]) == F, "C08:children-not-spawned")
 	zzrt.Assert(!t.wrongPar, "C08:Parent-does-not-name-the-spawning-actor")
+
+	if mode == 2 {
+		zzC08Replace(t, e, root)
+		return
+	}
 
 	// phase 1: a child stops on its own
 	victim := -1
@@ -107,11 +146,37 @@ func ZZ_C08() {
 
 	// phase 2: the root shuts down, possibly while someone else poisons a child
 	third := -1
-	if victim < 0 && zzrt.Choose(2) == 1 {
+	if mode == 0 && victim < 0 && zzrt.Choose(2) == 1 {
 		third = zzrt.Choose(F)
 		child := t.kids[root.ID][third]
 		zzrt.Go(func() { e.Poison(child) })
 		zzrt.Reach("third-party-poisons-child-during-shutdown")
+	}
+	if mode == 0 && third < 0 && victim < 0 && zzrt.Choose(2) == 1 {
+		// one child panics, once, while handling Stopped during the shutdown cascade
+		t.crashStop = t.kids[root.ID][0].ID
+		zzrt.Reach("child-panics-in-Stopped")
+	}
+	respawned, respawnEarly := false, false
+	if mode == 1 {
+		// somebody spawns the root's id again while the old root shuts down: the id may only be taken again once
+		// the previous owner's descendants are down (otherwise two generations of one id are alive together)
+		zzrt.Go(func() {
+			e.Spawn(func() Receiver {
+				respawned = true
+				var chk func(string)
+				chk = func(p string) {
+					for _, k := range t.kids[p] {
+						if !t.stopped[k.ID] || e.Registry.get(k) != nil {
+							respawnEarly = true
+						}
+						chk(k.ID)
+					}
+				}
+				chk(root.ID)
+				return &zzLeaf{}
+			}, "root", WithID("r"))
+		})
 	}
 	var ctx context.Context
 	if zzrt.Choose(2) == 0 {
@@ -138,6 +203,12 @@ func ZZ_C08() {
 		}
 	}
 	zzrt.Quiesce()
+	if mode == 1 {
+		if respawned {
+			zzrt.Reach("root-id-respawned-during-shutdown")
+		}
+		zzrt.Assert(!respawnEarly, "C10:id-taken-again-while-previous-owner's-descendants-are-alive")
+	}
 	if t.early && third >= 0 {
 		zzrt.Fail("C08:parent-handled-Stopped-before-a-descendant-was-stopped[child-poisoned-by-third-party-during-shutdown]")
 	}
@@ -157,4 +228,49 @@ func ZZ_C08() {
 		}
 	}
 	all(root.ID)
+}
+
+type zzLeaf struct{}
+
+func (*zzLeaf) Receive(*Context) {}
+
+// zzC08Replace (mode 2): a third party poisons child 0; from inside its Stopped handler the child asks the root
+// for a replacement under the same name and id. Whenever the root handles that request, afterwards Children()
+// must list exactly the live children, and a final shutdown of the root must take the replacement down too.
+func zzC08Replace(t *zzTree, e *Engine, root *PID) {
+	old := t.kids[root.ID][0]
+	t.rechild = old.ID
+	ctx0 := e.Poison(old)
+	zzrt.Quiesce()
+	zzrt.Assert(ctx0.(*context.CancelCtx).IsDone(), "C08:child-stop-never-completes")
+	rep := t.replaced[old.ID]
+	zzrt.Assert(rep != nil, "C08:harness-replacement-not-requested")
+	if rep == nil {
+		return
+	}
+	live := e.Registry.get(rep) != nil && t.gen[old.ID] == 2
+	if live {
+		zzrt.Reach("replacement-spawned")
+	} else {
+		// the request reached the root while the old incarnation was still registered: duplicate id, nothing spawned
+		zzrt.Reach("replacement-rejected-as-duplicate")
+	}
+	e.Send(root, zzProbe{})
+	zzrt.Quiesce()
+	listed := false
+	for _, id := range t.listed[root.ID] {
+		if id == old.ID {
+			listed = true
+		}
+	}
+	if live {
+		zzrt.Assert(listed, "C08:Children-omits-a-live-child")
+	}
+	// shutdown takes every live descendant down
+	ctx := e.Poison(root)
+	zzrt.Quiesce()
+	zzrt.Assert(ctx.(*context.CancelCtx).IsDone(), "C08:parent-shutdown-never-completes")
+	if live {
+		zzrt.Assert(t.stoppedN[old.ID] == 2 && e.Registry.get(rep) == nil, "C08:live-child-survives-parent-shutdown")
+	}
 }
